@@ -174,6 +174,23 @@ fn cmd_net(args: &[String]) {
     engine::install_panic_hook();
     let _ = std::fs::create_dir_all(&dir);
     let rt = tokio::runtime::Builder::new_multi_thread().worker_threads(2).enable_all().build().unwrap();
+    std::thread::spawn(|| {
+        use std::sync::atomic::Ordering::SeqCst;
+        let (mut last, mut since) = (0usize, std::time::Instant::now());
+        loop {
+            std::thread::sleep(std::time::Duration::from_millis(500));
+            let p = net::FLOOD_PROGRESS.load(SeqCst);
+            if p != last || !net::FLOOD_ACTIVE.load(SeqCst) {
+                last = p;
+                since = std::time::Instant::now();
+            } else if since.elapsed().as_secs() >= 40 {
+                // recv was called 40 s ago and the call has neither returned nor let the 5 s timeout around it fire:
+                // the task is spinning inside the library without ever yielding to the runtime
+                println!("WATCHDOG: the receive loop has not come back from recv for 40 s (recv calls so far: {})", p);
+                std::process::exit(3);
+            }
+        }
+    });
     let mut f = std::io::BufWriter::new(std::fs::File::create(&out).expect("create out"));
     let mut n = 0usize;
     rt.block_on(async {
